@@ -21,7 +21,17 @@ Tab(f) == f @@ <<>>      \* force a lazily evaluated function into a table
 (* flag filtration of a weighted graph *)
 EdgesIn(s)      == {e \in SUBSET s : Cardinality(e) = 2}
 FlagVal(G, s)   == IF Cardinality(s) = 1 THEN NEGINF ELSE Max({G[e] : e \in EdgesIn(s)})
-FlagF(VV, G)    == Tab([s \in Cliques(VV, DOMAIN G, Cardinality(VV)) |-> FlagVal(G, s)])
+(* the cliques, grown one vertex at a time (larger than the vertices already in): the same set   *)
+(* as Cliques(VV, EE, |VV|) of Simplicial.tla (ThCliques in MC_EdgeCollapse), without enumerating   *)
+(* the subsets of VV                                                                              *)
+NbrTable(VV, EE) == Tab([v \in VV |-> UNION {e \ {v} : e \in {f \in EE : v \in f}}])
+RECURSIVE GrowCliques(_, _, _)
+GrowCliques(level, acc, nb) ==
+  IF level = {} THEN acc
+  ELSE LET next == UNION {{s \cup {v} : v \in {x \in nb[Max(s)] : x > Max(s) /\ \A a \in s : x \in nb[a]}} : s \in level}
+       IN  GrowCliques(next, acc \cup next, nb)
+FlagCliques(VV, EE) == LET V1 == {{v} : v \in VV} IN GrowCliques(V1, V1, NbrTable(VV, EE))
+FlagF(VV, G)    == Tab([s \in FlagCliques(VV, DOMAIN G) |-> FlagVal(G, s)])
 FBefore(F, s, t) == \/ F[s] < F[t]
                     \/ F[s] = F[t] /\ (Dim(s) < Dim(t) \/ (Dim(s) = Dim(t) /\ RevLex(s, t)))
 FSeq(F)         == SetToSortSeq(DOMAIN F, LAMBDA s, t : FBefore(F, s, t))
